@@ -310,6 +310,11 @@ func runWHistory(w *world.World, steps []wStep, caps world.Caps, reqCT string, c
 				}
 			}
 			truth(name)
+			for _, e := range conn.Events {
+				if strings.HasPrefix(e.Kind, "decoy:") && fail == "" {
+					fail = fmt.Sprintf("%s: %s was delegated past the underlying writer to the writer it wraps", name, strings.TrimPrefix(e.Kind, "decoy:"))
+				}
+			}
 			if fail != "" {
 				return
 			}
@@ -383,6 +388,9 @@ func runC14(src sim.Source, o Opts) *Result {
 	}
 	steps := genWSteps(src)
 	caps := world.NormCaps(world.Caps{ReaderFrom: sim.Bool(src, "rf"), Flusher: sim.Bool(src, "fl"), FlushError: sim.Bool(src, "fe"), Hijacker: sim.Bool(src, "group")})
+	if !caps.ReaderFrom && !caps.Flusher && !caps.FlushError && !caps.Hijacker && src.Intn("unwrap", 2) == 1 {
+		caps.Unwrap = true // offers nothing, wraps a writer offering everything (which must never be reached)
+	}
 	reqCT := sim.Pick(src, "reqct", []string{"", "", "application/json", "text/html; charset=utf-8"})
 	flushFails = src.Intn("flushfails", 3) == 0 // fault: the connection's FlushError reports a failure
 	total := 0
